@@ -1,6 +1,6 @@
 PROPS["C13"] = prop(
     "exploration",
-    "rapid-generated sequences of hostile client messages (every field over boundary values) and raw bytes against the real hub/topics/sessions in a synctest bubble; oracle: survival + every id answered + bystander served; rapid-generated Drafty documents (spans/keys at and beyond every boundary, wrong JSON types) through drafty.Preview/PlainText which render published content into push notifications, oracle: no panic, well-formed text survives; thorough tier: the same generators and oracles also run under Go's native coverage-guided fuzzer (rapid.MakeFuzz, 60 s per target, all cores); session 3: protobuf connections, cache-managing {get sub ims}, prologue requests must be answered too",
+    "rapid-generated sequences of hostile client messages (every field over boundary values) and raw bytes against the real hub/topics/sessions in a synctest bubble; oracle: survival + every id answered + bystander served; rapid-generated Drafty documents (spans/keys at and beyond every boundary, wrong JSON types) through drafty.Preview/PlainText which render published content into push notifications, oracle: no panic, well-formed text survives; thorough tier: the same generators and oracles also run under Go's native coverage-guided fuzzer (rapid.MakeFuzz, 60 s per target, all cores); session 3: protobuf connections, cache-managing {get sub ims}, prologue requests must be answered too; after seeded round 6: two connections asking for an unloaded topic from a slow store, a {sub} answered exactly once, a party of a video call which stops reading",
     "program = 1-3 sessions in generated auth states + optional ordinary prologue (group, p2p, messages) + 1-12 hostile messages; non-trivial = at least one hostile non-handshake request from a logged-in session; distinct = FNV-64 of the program; drafty unit: document = text of 0-12 graphemes + 0-4 spans + 0-3 entities, 70% hostile (at/len/key from {0,1,limit-1,limit,limit+1,-1,-5,2^30,2.5,\"3\",null,true}), non-trivial = has at least one span",
     "Generated hostile protocol traffic is run through the real server code; any panic (any goroutine), unanswered request, accepted garbage or unserved bystander is a violation. Sampled.",
     "Trusts verifmem as the store; websocket/long-poll framing is not exercised (JSON dispatch is); cluster mode off.",
